@@ -1320,9 +1320,9 @@ class Gen:
 
     def model(self, well_formed):
         r = self.r
-        # bytes of large blobs (regions, stacks) per model: the whole 64 KiB in every model of the thorough tier and in one model in
-        # six of the quick tier (whose cost is the number of bytes the extracted decoder walks), 5000 bytes in the others
-        budget = [self.big_budget if (self.tier != "quick" or r.chance(1, 6)) else 5000]
+        # bytes of large blobs (regions, stacks) per model: the whole 64 KiB in one model in six of the quick tier and in every second
+        # model of the thorough tier (the cost of a run is the number of bytes the extracted decoder walks), 5000 bytes in the others
+        budget = [self.big_budget if r.chance(1, 6 if self.tier == "quick" else 2) else 5000]
         m = {"endian": 0, "version": 42899 | (self.u(16) << 16), "checksum": self.u(32), "time": self.u(32), "flags": self.u(64),
              "pad": r.below(2), "extra": []}
         present = {k: r.chance(2, 3) for k in ST}
